@@ -46,8 +46,10 @@ class KModelOb:
     engine = 'K-model'
 
     def __init__(self, ob_id, unit, harness, desc, extract_fn, bounds, cuts=(), timeout=600, mem_gb=12,
-                 tiers=('quick', 'thorough'), min_covers=1, weight=1, rustflags=None):
-        self.rustflags = rustflags
+                 tiers=('quick', 'thorough'), min_covers=1, weight=1, rustflags=None, field_sensitivity=False):
+        # field_sensitivity=True: run CBMC in its DEFAULT mode (array field sensitivity on) for units whose symbolic execution does not
+        # terminate without it (constant propagation through arrays inside structs bounds their loops); see DESIGN.md 11.2
+        self.rustflags = rustflags; self.field_sensitivity = field_sensitivity
         self.ob_id = ob_id; self.unit = unit; self.harness = harness; self.desc = desc
         self.extract_fn = extract_fn; self.bounds = bounds; self.cuts = list(cuts)
         self.timeout = timeout; self.mem_gb = mem_gb; self.tiers = tiers; self.min_covers = min_covers
@@ -55,10 +57,12 @@ class KModelOb:
 
     def kani_cmd(self, info, playback=False):
         tdir = os.path.join(vlib.scratch(), 'kt', '%s-%s%s' % (self.unit, self.harness, '-f' if self.rustflags else ''))
+        if self.field_sensitivity and 'CBMC array field sensitivity ON' not in ' '.join(self.cuts):
+            self.cuts.append('CBMC array field sensitivity ON (CBMC default) for this unit - every other unit runs with --no-array-field-sensitivity')
         cmd = 'cd %s && cargo kani --harness %s --target-dir %s' % (info['crate'], self.harness, tdir)
         if playback:
             cmd += ' -Z concrete-playback --concrete-playback=print'
-        return cmd + CBMC_ARGS
+        return cmd + ('' if self.field_sensitivity else CBMC_ARGS)
 
     def run(self, ctx):
         r = Result(self.ob_id, self.engine, self.desc)
